@@ -11,7 +11,7 @@ Inductive verdict := Accepted | Rejected | Mixed.
 (* accepted: a script for both targets; rejected: an error for both (the file is parsed once) *)
 Definition verdict_of (src : bytes) : verdict :=
   match parse_main (table_env src) (bs "/V/main.tsh") with
-  | POk body _ _ =>
+  | POk body _ _ _ =>
       match emit TBash body, emit TBatch body with
       | Script _, Script _ => Accepted
       | Failed, Failed => Rejected
@@ -31,7 +31,7 @@ Proof.
   unfold verdict_of, transpile, transpile_entry, parse_main, lookup_file, table_env. cbn [e_fs].
   change (aget (bs "/V/main.tsh") [(bs "/V/main.tsh", mkFe src (bs "i0000000"))]) with (Some (mkFe src (bs "i0000000"))).
   cbv iota beta.
-  match goal with |- context [parse_entry ?a ?b ?c ?d ?e ?f] => destruct (parse_entry a b c d e f) as [body u p| |] end; reflexivity.
+  match goal with |- context [parse_entry ?a ?b ?c ?d ?e ?f ?g] => destruct (parse_entry a b c d e f g) as [body u p i| |] end; reflexivity.
 Qed.
 
 Definition entry_ok_gen (pre : bytes) (e : bytes * bool * bytes) : bool :=
